@@ -413,7 +413,7 @@ func hExplore(g *vlib.G, e *hEnv, label string, depth, prefixLen int, batches bo
 		for _, o := range prefix {
 			key += " " + o.String() + ";"
 		}
-		g.Case(key, func(t *vlib.T) {
+		gcase(g, key, func(t *vlib.T) {
 			t.Nontrivial()
 			nviol := 0
 			var rec func(ops []dsOp, grid hGrid)
